@@ -943,6 +943,10 @@ impl<'p, W, R, T> CompilationScope<'p, W, R, T> {
                     return Ok(spec.return_type.clone());
                 }
                 if let XType::XFunc(func) = func_type.as_ref() {
+                    let (min_args, max_args) = func.arg_len_range();
+                    if args.len() < min_args || args.len() > max_args {
+                        return Err(CompilationError::CallableBindingFailed);
+                    }
                     let mut bind = Bind::new();
                     for (param, arg) in func.params.iter().zip(args) {
                         let arg_type = self.type_of(arg)?;
